@@ -183,9 +183,13 @@ def begin_run(seed, clock=None):
     # of it.  Re-initialise in place.
     Logger._destinations.__init__()
     _output._DEFAULT_LOGGER = _ORIG["default_logger"]
-    reg = _errors._error_extraction.registry
-    reg.clear()
-    reg.update(_ORIG["registry"])
+    # re-initialise the extractor registry in place (public names are bound methods of this
+    # instance) and re-register the defaults through the public API, so that any derived state a
+    # changed implementation keeps (caches) starts clean as well
+    ee = _errors._error_extraction
+    ee.__init__()
+    for _cls, _fn in _ORIG["registry"].items():
+        ee.register_exception_extractor(_cls, _fn)
     # a ContextVar needs no reset (every run has fresh contexts); a mutant that
     # keeps the context in a global does, or one run's leak poisons the next
     try:
